@@ -282,13 +282,26 @@ def r5(db, rep):
     if not ur:
         return
     f = ur[0]
-    g = cfg.FnCFG(f)
+    # the walk of one record lives in update_records' loop or in a member it calls per record: the final advance over the
+    # record data is `P += S` or `return P + S` with P a pointer variable and S an integer variable
+    cands = [f] + [h for h in (db.fn(x.get("callee")) for x in facts.fn_nodes(f) if x["k"] == "CXXMemberCallExpr" and x.get("callee"))
+                   if h is not None and h.get("body") and h.get("rec") == DNS and not h["id"].split("(")[0].endswith("update_dname")]
     final = None
-    for n in facts.fn_nodes(f):
-        if n["k"] == "CompoundAssignOperator" and n["op"] == "+=" and strip(n["c"][0]).get("name") == "ptr":
-            r = strip(n["c"][1])
-            if r["k"] == "DeclRefExpr":
-                final = (n, r.get("var"))
+    for h in cands:
+        for n in facts.fn_nodes(h):
+            pv = sv = None
+            if n["k"] == "CompoundAssignOperator" and n["op"] == "+=":
+                pv, sv = strip(n["c"][0]), strip(n["c"][1])
+            elif n["k"] == "ReturnStmt" and n.get("c") and facts.strip_all(n["c"][0])["k"] == "BinaryOperator" and facts.strip_all(n["c"][0]).get("op") == "+":
+                e_ = facts.strip_all(n["c"][0])
+                pv, sv = strip(e_["c"][0]), strip(e_["c"][1])
+            if pv is not None and pv["k"] == "DeclRefExpr" and sv["k"] == "DeclRefExpr" and (facts.ty(h, pv) or {}).get("k") == "ptr" \
+                    and (facts.ty(h, sv) or {}).get("k") == "int" and not sv.get("parm"):
+                final = (n, sv.get("var"), pv.get("var"))
+        if final:
+            f = h
+            break
+    g = cfg.FnCFG(f)
     if final is None:
         rep.violation("R5-lockstep", "update_records", facts.loc(f), "no `ptr += size` found: cannot identify the record-data length")
         return
@@ -307,7 +320,7 @@ def r5(db, rep):
             if arm is None:
                 continue
             adv = sum(facts.cval(n["c"][1]) or 0 for n in facts.walk(arm)
-                      if n["k"] == "CompoundAssignOperator" and n["op"] == "+=" and strip(n["c"][0]).get("name") == "ptr"
+                      if n["k"] == "CompoundAssignOperator" and n["op"] == "+=" and strip(n["c"][0]).get("var") == final[2]
                       and facts.cval(n["c"][1]) is not None)
             dec = sum(facts.cval(n["c"][1]) or 0 for n in facts.walk(arm)
                       if n["k"] == "CompoundAssignOperator" and n["op"] == "-=" and strip(n["c"][0]).get("var") == szvar
@@ -720,16 +733,27 @@ def r11(db, rep):
     except ieval.Unknown as e:
         rep.analysis_broken("contains_dname: outside the finite evaluator: %s" % e)
         return
-    loops = [x for x in facts.fn_nodes(f) if x["k"] in ("ForStmt", "WhileStmt")]
-    if not loops:
-        rep.analysis_broken("update_records: record loop not found")
-        return
-    body = [x for x in loops[0]["c"] if x is not None][-1]
-    tv = [x for x in facts.walk(body) if x["k"] == "VarDecl" and x.get("name") == "type"]
-    if not tv:
+    # the walk of ONE record, by role: the code around the call of contains_dname(<type variable>) - the body of the record
+    # loop of update_records, or the body of a member it calls per record
+    cands = [f] + [h for h in (db.fn(x.get("callee")) for x in facts.fn_nodes(f) if x["k"] == "CXXMemberCallExpr" and x.get("callee"))
+                   if h is not None and h.get("body") and h.get("rec") == DNS]
+    site = None
+    for h in cands:
+        for x in facts.fn_nodes(h):
+            if x["k"] in ("CallExpr", "CXXMemberCallExpr") and x.get("cname") == "contains_dname":
+                a0 = facts.strip_all(cfg.args(x)[0]) if cfg.args(x) else None
+                if a0 is not None and a0["k"] == "DeclRefExpr" and a0.get("var"):
+                    site = (h, x, a0["var"])
+                    break
+        if site:
+            break
+    if site is None:
         rep.analysis_broken("update_records: the record type variable was not found")
         return
-    typev = tv[0]["var"]
+    f, cdcall, typev = site
+    loops = [x for x in facts.fn_nodes(f) if x["k"] in ("ForStmt", "WhileStmt") and any(y is cdcall for y in facts.walk(x))]
+    body = [x for x in loops[-1]["c"] if x is not None][-1] if loops else f["body"]
+    loops = loops[-1:] or [f["body"]]
     key = "update_records:dname-types"
 
     def tf(x):
